@@ -13,6 +13,7 @@ import concurrent.futures
 import copy
 import json
 import os
+import signal
 import subprocess
 import sys
 import threading
@@ -90,15 +91,27 @@ def run_sim(binary, args, timeout=600, valgrind=False):
         cmd = ["valgrind", "-q", "--error-exitcode=77", "--exit-on-first-error=yes"] + cmd
     env = dict(os.environ)
     env["LC_ALL"] = "C"
+    # the worker forks one child per run (and that one a child for the reference
+    # world): on a timeout the whole process group has to go, otherwise a hung
+    # grandchild keeps the pipes open and the driver waits for ever
+    p = subprocess.Popen(cmd, stdout=subprocess.PIPE, stderr=subprocess.PIPE, env=env, start_new_session=True)
     try:
-        p = subprocess.run(cmd, stdout=subprocess.PIPE, stderr=subprocess.PIPE, timeout=timeout, env=env)
+        o, e = p.communicate(timeout=timeout)
         rc = p.returncode
-        out = p.stdout.decode("utf-8", "replace").splitlines()
-        err = p.stderr.decode("utf-8", "replace")
-    except subprocess.TimeoutExpired as e:
+        out = o.decode("utf-8", "replace").splitlines()
+        err = e.decode("utf-8", "replace")
+    except subprocess.TimeoutExpired:
+        try:
+            os.killpg(p.pid, signal.SIGKILL)
+        except OSError:
+            pass
+        try:
+            o, e = p.communicate(timeout=30)
+        except subprocess.TimeoutExpired:
+            o, e = b"", b""
         rc = -999
-        out = (e.stdout or b"").decode("utf-8", "replace").splitlines()
-        err = (e.stderr or b"").decode("utf-8", "replace") + "\n[driver] timeout"
+        out = (o or b"").decode("utf-8", "replace").splitlines()
+        err = (e or b"").decode("utf-8", "replace") + "\n[driver] timeout"
     return rc, out, err
 
 
